@@ -189,7 +189,12 @@ class CompiledOpenTypes(CompiledType):
 class Compiler(object):
 
     def __init__(self, specification, numeric_enums=False):
-        self._specification = specification
+        # Pre-processing rewrites the specification (parameterized
+        # types are instantiated, tags and defaults are resolved,
+        # ...). Work on a copy, so that the result does not depend on
+        # how often, and for which codec, the caller's dictionary
+        # has been compiled before.
+        self._specification = deepcopy(specification)
         self._numeric_enums = numeric_enums
         self._types_backtrace = []
         self.recursive_types = []
